@@ -232,21 +232,75 @@ def reconfigure(prog, rep, tag):
                                 and any(z[0] in ("call", "via") and z[1].split("::")[-1] in ("checked_add", "wrapping_add", "saturating_add") or (z[0] == "binop" and z[1] == "Add") for z in y) \
                                 and not any(z[0] == "await" and "receive" in z[1] for z in y):
                             adj.append((cd, cd.true_target() if cd.op == "Eq" else cd.false_target()))
-            good = len(adj) == 1 and bool(srcs)
-            if good:
+            dom = None
+            if len(adj) == 1:
                 cd, eq_t = adj[0]
                 dom = q.edge_dominated(cb, cd.bb, eq_t)
+            elif not adj:
+                # the comparison may live in the predicate closure of Option::filter / is_some_and / map_or ...
+                dom, cd = _adjacency_via_closure(prog, cb, pc)
+            good = dom is not None and bool(srcs)
+            if good:
                 for (k, v, bi) in srcs:
                     if k == "const" and v == 0:
                         continue
                     if k == "const" and v == 1 and bi in dom:
                         continue
-                    if k == "cmp" and bi == cd.bb:
+                    if k == "cmp" and cd is not None and bi == cd.bb:
                         continue
                     good = False
             d[fn] = "true-only-if-buffer-follows-the-mapped-memory" if good else "flag-not-understood %s" % [(k, v) for (k, v, bi) in srcs]
             ok = ok and good
     rep.ob(P, "extend-only-own-mapping" + tag, ok, "an FMMU read back from the device is extended only when this configuration pass wrote it (SAFE-OP -> PRE-OP -> SAFE-OP configures again; stale mappings are replaced); %s" % d, loc=b.span)
+
+
+def _adjacency_via_closure(prog, cb, pc):
+    """`current.filter(|(_, end)| sm.physical_start_address == *end)`-style adjacency tests: returns the set of
+    blocks dominated by the edge on which the predicate held, or (None, None)."""
+    preds = []
+
+    def is_start(rs):
+        return has_root(rs, "field", "SyncManagerChannel", "physical_start_address") or any(x[0] == "upvar" and str(x[-1]).endswith("physical_start_address") for x in rs)
+
+    for g in prog.group(cb.root_short):
+        if not g.is_closure:
+            continue
+        pg = Prov(g)
+        for cd in q.conds(g):
+            if cd.kind == "cmp" and cd.op in ("Eq", "Ne"):
+                l, r = pg.of_operand(cd.lhs), pg.of_operand(cd.rhs)
+                if is_start(l) != is_start(r):
+                    preds.append(g)
+        for st in [x for bi in g.live_blocks() for x in g.stmts(bi)]:
+            if st["k"] == "assign" and st["rv"]["k"] == "bin" and st["rv"]["op"] in ("Eq", "Ne") and not st["place"]["p"] and st["place"]["l"] == 0:
+                l, r = pg.of_operand(st["rv"]["a"][0]), pg.of_operand(st["rv"]["a"][1])
+                if is_start(l) != is_start(r):
+                    preds.append(g)
+    if len({g.path for g in preds}) != 1:
+        return None, None
+    g = preds[0]
+    for c in cb.calls():
+        nm = (c.decl_s or "").split("::")[-1]
+        if nm not in ("filter", "is_some_and", "take_if", "map_or", "is_none_or"):
+            continue
+        if not any(x[0] == "closure" and (x[1] == g.short or g.path.endswith(x[1]) or x[1].endswith(g.short)) for a in c.args[1:] for x in pc.of_operand(a)):
+            continue
+        # the receiver holds what this pass mapped so far (end = start + length of the previous sync manager)
+        recv = pc.of_operand(c.args[0])
+        if not (has_root(recv, "field", "SyncManagerChannel", "length_bytes") and has_root(recv, "field", "SyncManagerChannel", "physical_start_address")) or any(z[0] == "await" and "receive" in z[1] for z in recv):
+            continue
+        rl = c.dest["l"]
+        for cd in q.conds(cb):
+            opnd = pc.of_operand(cd.t["d"]) if cd.kind != "discr" else pc.of_operand({"copy": cd.place})
+            if not any(x[0] == "call" and x[1].endswith("::" + nm) and x[2] == c.bb for x in opnd):
+                continue
+            if cd.kind == "discr":
+                tgt = cd.variant_targets(prog).get("Some")
+            else:
+                tgt = cd.true_target()
+            if tgt is not None:
+                return q.edge_dominated(cb, cd.bb, tgt), None
+    return None, None
 
 
 def _bool_sources(b, op, depth=8):
